@@ -9,7 +9,7 @@ Decides (writer discipline, both structures):
                 values loaded from the buffer
   R-MIN         (C01) bridge merge functions agree with the union-find's choice
 """
-from ..util import check_selects, whole_defs, edge_relation, fmt_atoms, variant_is
+from ..util import check_selects, whole_defs, edge_relation, fmt_atoms, variant_is, guards
 from . import min_common as mc
 from .rebuild_common import natural_loops
 
@@ -247,10 +247,70 @@ def check_uf_cas(chk, prog):
               "find_impl returns a value loaded from the buffer", f"find_impl returns {fmt_atoms(ret)}", fi.loc)
 
 
+def check_same_set(chk, prog):
+    R = chk.rule("R-UF-SAMESET", "ConcurrentUnionFind::same_set answers `false` only after re-reading the parent slot of one of the two find_impl results and finding it is still its own "
+                 "parent (a root that is not the other root), answers `true` only when the two find_impl results are equal, and otherwise re-finds both and loops")
+    root = prog.need(CUF + "::same_set")
+    g = None
+    for h in prog.region(root):
+        if len(h.calls_to("find_impl")) >= 2:
+            g = h
+    if g is None:
+        chk.missing(R, "closure of ConcurrentUnionFind::same_set that calls find_impl")
+        return
+    finds = {c.bb for c in g.calls_to("find_impl")}
+    falses, trues = [], []
+    for (bb, idx, dproj, kind, payload) in g.defs.get(0, []):
+        if kind == "a" and payload[0] == "use" and payload[1][0] == "k":
+            (falses if payload[1][1].startswith("false") else trues).append(bb)
+    probs = []
+    if not falses or not trues:
+        probs.append("same_set does not return both constants")
+
+    def is_find(atoms):
+        return bool(atoms) and all(a[0] == "call" and a[1].endswith("::find_impl") for a in atoms)
+    for b in falses:
+        ok = False
+        for gd in guards(g, b):
+            if gd.get("rel") != "Eq":
+                continue
+            oa, ob = g.origins(gd["a"]), g.origins(gd["b"])
+            for x, y in ((oa, ob), (ob, oa)):
+                if x and all(a[0] == "call" and a[1] == AI + "load" for a in x) and is_find(y):
+                    # the loaded slot is indexed by the same find result
+                    for a in x:
+                        ld = g.call_at(a[2])
+                        # receiver: &buf[as_usize(l)]
+                        rec = ld.args[0]
+                        for i, j, s2 in g.assigns():
+                            if s2[1][0] == rec[1][0] and s2[2][0] == "ref":
+                                idxs = [e for e in s2[2][2][1] if not isinstance(e, str) and e[0] == "i"]
+                                for e in idxs:
+                                    d = g.single_def(e[1])
+                                    if d and d[3] == "call" and d[4].d == AI + "as_usize" and is_find(g.origins(d[4].args[0])):
+                                        ok = True
+        if not ok:
+            probs.append("`false` is returned without re-checking that a find result is still a root (two ids merged between the two finds are reported as different sets)")
+    for b in trues:
+        ok = False
+        for gd in guards(g, b):
+            if gd.get("rel") == "Eq" and is_find(g.origins(gd["a"])) and is_find(g.origins(gd["b"])):
+                ok = True
+        if not ok:
+            probs.append("`true` is returned without the two find_impl results being equal")
+    # the not-equal, not-root path re-finds both before testing again
+    nes = [c for c in g.calls if c.p.endswith(("PartialEq::ne", "PartialEq::eq")) and is_find(g.origins(c.args[0])) and is_find(g.origins(c.args[1]))]
+    loop_ok = any(len([fb for fb in finds if fb in g.reach(c.bb) and c.bb in g.reach(fb)]) >= 2 for c in nes)
+    if not loop_ok:
+        probs.append("the retry path does not re-find both elements")
+    chk.judge(not probs, R, CUF + "::same_set", "same_set: true on equal roots, false only on a re-checked root, otherwise re-find", "; ".join(probs), g.loc)
+
+
 def run(chk, prog, tier):
     chk.explanation = EXPLANATION
     chk.assumptions = ["rustc nightly MIR construction", "Buffer::with_access's resize protocol relies on ReadOptimizedLock (C19 R-LOCK)"]
     check_uf_writers(chk, prog)
     check_uf_cas(chk, prog)
+    check_same_set(chk, prog)
     R = chk.rule("R-MIN", "bridge merge functions return min(a,b) of the ids they union: same representative as the union-find")
     mc.check_bridge_min(chk, prog, R)
